@@ -349,3 +349,17 @@ def jnorm(s):
     if s is None:
         return None
     return json.loads(s, parse_float=lambda x: ("F", x), parse_int=lambda x: ("I", x), object_pairs_hook=lambda kv: ("O", kv))
+
+
+def run_de(ctx, tag, queries):
+    """feed [program index, probe index, json text] triples to the compiled corpus binary's Deserialize dispatch"""
+    import subprocess
+    d = os.path.join(vlib.BUILD, f"e2e-{tag}")
+    binary = os.path.join(d, "target", "debug", f"e2e-{tag}")
+    cwd = os.path.join(vlib.SCRATCH, f"e2e-{tag}")
+    inp = "\n".join(json.dumps(q) for q in queries) + "\n"
+    pr = subprocess.run([binary, "de"], cwd=cwd, input=inp, stdout=subprocess.PIPE, stderr=subprocess.PIPE, text=True, timeout=3000)
+    res = [json.loads(l) for l in pr.stdout.split("\n") if l.strip()]
+    if len(res) != len(queries):
+        raise RuntimeError(f"de dispatch answered {len(res)} of {len(queries)}: {pr.stderr[-300:]}")
+    return res
